@@ -770,7 +770,8 @@ spiftool_version_compare(spif_charptr_t v1, spif_charptr_t v2)
             }
         } else if (isdigit(*v1) && isdigit(*v2)) {
             spif_charptr_t p1 = buff1, p2 = buff2;
-            spif_int32_t ival1, ival2;
+            spif_charptr_t n1, n2;
+            size_t len1, len2;
             spif_cmp_t c;
 
             /* Compare numbers.  First, copy each number into buffers. */
@@ -782,13 +783,21 @@ spiftool_version_compare(spif_charptr_t v1, spif_charptr_t v2)
             }
             *p1 = *p2 = 0;
 
-            /* Convert the strings into actual integers. */
-            ival1 = (spif_int32_t) strtol((char *) buff1, (char **) NULL, 10);
-            ival2 = (spif_int32_t) strtol((char *) buff2, (char **) NULL, 10);
-            D_CONF(("     -> Comparing as integers %d vs. %d\n", (int) ival1, (int) ival2));
+            /* Compare the digit strings as numbers of any size (a machine integer
+               would wrap):  without leading zeros the longer one is larger, and two
+               of the same length order like their text. */
+            for (n1 = buff1; *n1 == '0' && *(n1 + 1); n1++);
+            for (n2 = buff2; *n2 == '0' && *(n2 + 1); n2++);
+            len1 = strlen((char *) n1);
+            len2 = strlen((char *) n2);
+            D_CONF(("     -> Comparing as numbers %s vs. %s\n", n1, n2));
+            if (len1 != len2) {
+                c = ((len1 < len2) ? (SPIF_CMP_LESS) : (SPIF_CMP_GREATER));
+            } else {
+                c = SPIF_CMP_FROM_INT(strcmp((char *) n1, (char *) n2));
+            }
 
-            /* Compare the integers and return if not equal. */
-            c = SPIF_CMP_FROM_INT(ival1 - ival2);
+            /* Return if not equal. */
             if (!SPIF_CMP_IS_EQUAL(c)) {
                 D_CONF(("     -> %d\n", (int) c));
                 return c;
